@@ -870,6 +870,20 @@ def c16(tier):
                 sc = rl.Scenario("cfgerr-%s" % cc, {"f1.rs": [S(11)], "f2.rs": [S(21, ref=3)]}, lock=lock, config_class=cc,
                                  extra_files=extra)
                 rl.planned_runs(binary, sc, [[(mode, "")]], batch, v, sigbase={"config_class": cc})
+    # the lock is written by every inserting run, also one that fails on a later file
+    for structured in (False, True):
+        sc = rl.Scenario("partial-failure", {"f1.rs": [S(11)], "f2.rs": [S(21), S(22)], "f3.rs": [S(31)]}, lock=50, structured=structured)
+        rl.sweep(binary, sc, "edit", ["EIO"], batch, v, only_ops=("tmp.create", "tmp.write", "tmp.rename"), follow="check")
+    # a lock that exists but cannot be read is none of a run's business when use_cache is false
+    for lockkind in ("dir", "loop"):
+        for mode in ("check", "edit"):
+            sc = rl.Scenario("cache-off-lock-" + lockkind, {"f1.rs": [S(11)], "f2.rs": [S(21, ref=3)]}, lock=lockkind, use_cache=False)
+            res = rl.planned_runs(binary, sc, [[(mode, "")]], batch, v, sigbase={"lock_kind": lockkind, "use_cache": "False"})
+            want = 0 if mode == "edit" else "nonzero"
+            if res[0]["exits"][0] != want:
+                v.violation({"check": "CacheOffIgnoresLock", "lock_kind": lockkind, "mode": mode},
+                            "C16: use_cache false and a lock that cannot be read (%s): %s run exits %s" % (lockkind, mode, res[0]["exits"][0]),
+                            {"scenario": sc.describe(), "exits": res[0]["exits"]})
     # the cache switch must also hold when a run is stopped or an operation fails
     for lock in (None, 500):
         sc = rl.Scenario("cache-off-stop", {"f1.rs": [S(11)], "f2.rs": [S(21), S(22)]}, use_cache=False, lock=lock)
